@@ -570,3 +570,20 @@ def norm_endpoint(ep):
     if not ep.endswith('/'):
         ep = ep + '/'
     return ep
+
+
+# --- C19: response transformations -------------------------------------------------------------------
+
+def offered(environ):
+    """The content codings the request lists (parameters after ';' dropped, stripped)."""
+    return [e.split(';')[0].strip() for e in environ.get('HTTP_ACCEPT_ENCODING', '').split(',')]
+
+
+def supported(e):
+    return e == 'gzip' or e == 'deflate'
+
+
+def jsonp_body(index, text):
+    """One complete call statement whose single argument is a JavaScript string literal with the
+    value `text` (json.dumps of a str is such a literal: assumed library fact L-JSON-JS)."""
+    return '___eio[' + str(index) + '](' + json.dumps(text) + ');'
